@@ -240,11 +240,11 @@ PROPS["C19"] = dict(
 PROPS["C04"] = dict(
     level="proof",
     technique="Lean 4 theorems on the model (decoded vectors within the cap => tree-hash precondition for every parsed block; bounded VarInt reads; extra loop terminates; allocation-ledger bound closed under the decoder combinators and instantiated on the worst vector nesting) + isolated execution of every entry point (child process, catch_unwind, time limit, counting allocator) compared with the model's accept/reject",
-    level_text="PARTIAL. Proved on the model: C04_vec_cap (a capped vector decoder returns exactly n elements with n*size_of <= CAP), C04_treehash_pre / C04_parsed_block_root_no_panic (every parsed block lists <= 2^20 hashes, so tree_hash's asserts and indexings cannot fire: the model of tree_hash returns `some` = no panic), C04_varint_bounded (1..10 bytes), C04_extra_total (the extra loop terminates on every input), C04_alloc_bind / C04_alloc_vec (ledger bound peak <= A + B*bytes closed under sequencing and capped pre-allocating vectors), C04_alloc_bound_inputs (instrumented Vec<TxIn> decoder = model decoder, peak <= 2*CAP + 72*|b|), C04_alloc_released_on_error. All model decoders are total Lean functions (structural recursion or fuel proved sufficient). What the model cannot exhibit - panics inside dependencies (dalek, tiny-keccak, base58-monero, hex, fixed-hash, std formatting), stack exhaustion, allocator/OS behaviour, real time - is observed by running every entry point and every public operation on parsed values in a child process under catch_unwind, a 20 s limit and a counting allocator: outcome must equal the model's accept/reject (never PANIC/ABORT/TIMEOUT) and peak heap must stay <= 2*CAP + 4 MiB + 160*|input|.",
+    level_text="PARTIAL. Proved on the model: C04_vec_cap (a capped vector decoder returns exactly n elements with n*size_of <= CAP), C04_treehash_pre / C04_parsed_block_root_no_panic (every parsed block lists <= 2^20 hashes, so tree_hash's asserts and indexings cannot fire: the model of tree_hash returns `some` = no panic), C04_varint_bounded (1..10 bytes), C04_extra_total (the extra loop terminates on every input), C04_alloc_bind / C04_alloc_vec (ledger bound peak <= A + B*bytes closed under sequencing and capped pre-allocating vectors), C04_alloc_bound_tx / C04_alloc_bound_block (instrumented decoders of the WHOLE transaction and block - with_capacity reservations after their cap check, push-grown vectors with growth factor 4 - compute exactly the model's result and keep peak <= 2*CAP + 88*|b| on success and failure), C04_alloc_released. All model decoders are total Lean functions (structural recursion or fuel proved sufficient). What the model cannot exhibit - panics inside dependencies (dalek, tiny-keccak, base58-monero, hex, fixed-hash, std formatting), stack exhaustion, allocator/OS behaviour, real time - is observed by running every entry point and every public operation on parsed values in a child process under catch_unwind, a 20 s limit and a counting allocator: outcome must equal the model's accept/reject (never PANIC/ABORT/TIMEOUT) and peak heap must stay <= 2*CAP + 4 MiB + 160*|input|.",
     level_note="Trusted: Lean kernel; model/Rust correspondence differential; the isolated runs sample the input space (valid, mutated, truncated at every position, declared-length attacks at every position and nested, random bytes, text inputs incl. invalid UTF-8 and 100 kB strings). Scanning time is linear in |major|x|minor| by the caller's choice of ranges; the harness uses small ranges.",
     design_ref="DESIGN.md §6 C04",
     rule="~10k (quick) / ~100k (thorough) isolated runs over 20 entry points; non-trivial = inputs that parse (all public operations are then run on the value).",
-    assumptions=["the ledger theorem is instantiated on the inputs vector (worst nesting); the other vectors are covered by the same combinator lemmas but not spelled out", "dependencies do not panic on the sampled inputs"],
+    assumptions=["the ledger charges what the Rust source allocates explicitly (Vec capacities); allocator overhead and temporaries of operations on parsed values are covered by the measured bound only", "dependencies do not panic on the sampled inputs"],
     gen_items=["CAP"],
     panic_inventory=True,
 )
